@@ -142,7 +142,7 @@ func SelfTest(prop, repo, verif string) []MutantResult {
 	}
 	sort.Slice(ms, func(i, j int) bool { return ms[i].Name < ms[j].Name })
 	res := make([]MutantResult, len(ms))
-	sem := make(chan struct{}, 8)
+	sem := make(chan struct{}, 4)
 	var wg sync.WaitGroup
 	self, _ := os.Executable()
 	for i, m := range ms {
@@ -153,6 +153,7 @@ func SelfTest(prop, repo, verif string) []MutantResult {
 			defer func() { <-sem }()
 			r := MutantResult{Name: m.Name, Expect: m.Expect}
 			cmd := exec.Command(self, "-mutant", m.Name, "-repo", repo)
+			cmd.Env = append(os.Environ(), "GOMAXPROCS=4")
 			out, err := cmd.Output()
 			if err != nil {
 				r.Result, r.Detail = "MISSED", "child failed: "+err.Error()
